@@ -1472,7 +1472,7 @@ def pmh_run(ops):
     return out
 
 
-def _isolated(fn, arg, timeout=300):
+def _isolated(fn, arg, timeout=1800):
     """run fn(arg) in a forked child that starts from this process's image and return its (JSON-able) result: every
     history gets a process of its own, so a replay of the history alone sees what the check saw.  The child ends its
     own child processes (worker pools a tree under test may have left running) before it exits."""
